@@ -141,7 +141,8 @@ def assemble(soc):
                 dec.add(kb, name=None if c.get("name") is None else f"{c['name']}{uid[0]}_{id(kb) % 97}")
             except ValueError:
                 pass
-            list(dec.bus.memory_map.all_resources())      # software may list a map while it is being assembled
+            common.poke_map(dec.bus.memory_map, uid[0] + 1)   # software may abandon a listing half way ...
+            list(dec.bus.memory_map.all_resources())      # ... or list a map while it is being assembled
         sub("cdec", dec)
         return dec.bus
 
@@ -177,6 +178,7 @@ def assemble(soc):
             kinds[id(b.memory_map)] = kind
         except ValueError:
             pass
+        common.poke_map(root.bus.memory_map, k + (k % 3 == 0))
         list(root.bus.memory_map.all_resources())
         root.bus.memory_map.decode_address(0)
     sub("root", root)
